@@ -130,6 +130,24 @@ func (w *Watcher) Close() error {
 	return nil
 }
 
+// ErrEventOverflow is what the real library reports on Errors when the kernel's event queue
+// overflowed; watching goes on afterwards.
+var ErrEventOverflow = errors.New("fsnotify: queue or buffer overflow")
+
+// EmitError delivers err on the Errors channel of every open watcher that watches the directory
+// of path (harness side): a watcher error is something to report, the watch stays in place.
+func EmitError(path string, err error) int {
+	n := 0
+	for _, w := range *registry() {
+		if _, ok := w.watched(path); w.closed || !ok {
+			continue
+		}
+		sim.Send("simfsn.EmitError", w.Errors, err)
+		n++
+	}
+	return n
+}
+
 // Watchers returns how many open watchers watch the directory of path (harness side).
 func Watchers(path string) int {
 	n := 0
